@@ -70,6 +70,8 @@ def runExpr (inp : List String) (obs : List String) : Option Verdict := do
             -- OK on malformed content only if entries 0..index are well formed: check by cutting the body after the entry
             []
           else if cf.headD "" == "c1" ∧ cf.getD 1 "" != "-170" then ["C19.channel_error_without_170"]
+          -- a malformed channel list never ends silently: beyond its well-formed entries the answer is ERROR, not NO_MORE
+          else if cf.headD "" == "c2" then ["C19.channel_no_more_on_malformed"]
           else [])
       nJ ++ cJ
     | _ => ["C19.malformed_observation"]
